@@ -664,7 +664,7 @@ func (e *Engine) evalBuiltin(st *State, call *ast.CallExpr, name string) Value {
 			if len(call.Args) > 2 {
 				c = e.asInt(e.eval(st, call.Args[2]), call.Args[2])
 			}
-			e.oblige(st, "make", e.slug(call), And(Le(I(0), n), Le(n, c), Le(c, I(1<<40))), call.Pos(), nil)
+			e.oblige(st, "make", e.slug(call), And(Le(I(0), n), Le(n, c), Le(c, I(1<<44))), call.Pos(), nil)
 			blk := e.allocBlock(st, 1)
 			if isScalarElem(u.Elem()) {
 				st.Mem = e.name("Mem", Sto(st.Mem, blk, T{"((as const (Array Int Int)) 0)", SArr}))
@@ -673,7 +673,9 @@ func (e *Engine) evalBuiltin(st *State, call *ast.CallExpr, name string) Value {
 			}
 			return SliceV{blk, I(0), n, c}
 		case *types.Map:
-			return e.newMap(st)
+			m := e.newMap(st)
+			e.mapTyped(st, m.(RefV).t, t)
+			return m
 		case *types.Chan:
 			e.fail(call, "channels are outside the subset")
 		}
@@ -1173,6 +1175,24 @@ func (e *Engine) evalSpecHelper(st *State, call *ast.CallExpr, name string) Valu
 		bo := e.bytesOperand(st, call.Args[0])
 		i := e.asInt(e.eval(st, call.Args[1]), call)
 		return IntV{Sel(bo.arr, Add(bo.off, i))}
+	case "visited":
+		if len(e.visStack) == 0 {
+			e.fail(call, "visited() outside a map range loop")
+		}
+		k := e.mapKey(st, e.eval(st, call.Args[0]), call.Args[0])
+		return BoolV{Eq(Sel(e.visStack[len(e.visStack)-1], k), I(1))}
+	case "hasPrefix":
+		x := e.bytesOperand(st, call.Args[0])
+		p := e.bytesOperand(st, call.Args[1])
+		return BoolV{And(Ge(x.n, p.n), e.arrayEq(st, x.arr, x.off, p.arr, p.off, p.n))}
+	case "lexLess":
+		x := e.bytesOperand(st, call.Args[0])
+		y := e.bytesOperand(st, call.Args[1])
+		return BoolV{e.lexLess(x, y)}
+	case "sameRef":
+		a := e.eval(st, call.Args[0])
+		b := e.eval(st, call.Args[1])
+		return BoolV{Eq(e.flatten(st, a, e.typeOf(call.Args[0]))[0], e.flatten(st, b, e.typeOf(call.Args[1]))[0])}
 	case "b2i":
 		return IntV{B2I(e.asBool(e.eval(st, call.Args[0]), call))}
 	case "has":
@@ -1392,4 +1412,20 @@ func (e *Engine) hoistable(call *ast.CallExpr) bool {
 		}
 	}
 	return e.calleeFunc(call) != nil
+}
+
+// lexLess: bytewise lexicographic x < y (exists a first differing position, or x is a proper prefix of y).
+func (e *Engine) lexLess(x, y bytesOp) T {
+	e.nsym++
+	dv := fmt.Sprintf("d!%d", e.nsym)
+	d := T{dv, SInt}
+	e.nsym++
+	jv := fmt.Sprintf("j!%d", e.nsym)
+	j := T{jv, SInt}
+	same := func(upto T) T {
+		return Forall([]string{jv}, Implies(And(Le(I(0), j), Lt(j, upto)), Eq(Sel(x.arr, Add(x.off, j)), Sel(y.arr, Add(y.off, j)))))
+	}
+	properPrefix := And(Lt(x.n, y.n), same(x.n))
+	differ := Exists([]string{dv}, And(Le(I(0), d), Lt(d, x.n), Lt(d, y.n), Lt(Sel(x.arr, Add(x.off, d)), Sel(y.arr, Add(y.off, d))), same(d)))
+	return Or(properPrefix, differ)
 }
